@@ -50,6 +50,7 @@ MODELLED RATHER THAN VERIFIED (what the statements below do not cover):
 -/
 import Compass.Model.Search
 import Compass.Gen.Decisions
+import Compass.Gen.Fns
 import Compass.Proofs.Num
 import Compass.Model.Ksp
 import Compass.Proofs.Ksp
@@ -1616,6 +1617,27 @@ source's `tentative_gscore < existing_gscore`; with `<=` an equal-cost arrival r
 theorem src_relax_improves {α : Type} [Field α] [LinearOrder α] [IsStrictOrderedRing α] [Lit α] [LawfulLit α] (tent ex : α) :
     some (improves tent (some ex)) = relax_improves.num tent ex := by
   simp [improves, relax_improves, Rel.num]
+
+/-! ### Generated function bodies
+
+`tools/gen_fns.py` re-translates the body of the Rust function on every run into `Compass/Gen/Fns.lean`
+(`Gen.<Type>_<fn>`; conventions in the header of the tool).  Each `gen_*_eq` theorem below says that the
+generated definition *is* the hand-written model function the property theorems are about.  A source
+change to the function changes the generated definition and the proof stops checking (a body the
+translator no longer recognises is not emitted: the theorem no longer elaborates). -/
+
+/-- `k` is a `usize`: the hypothesis is the range of the type (`saturating_mul` is translated with its bound;
+the model multiplies in `Nat` — the two agree on every `k` a `usize` can hold) -/
+theorem gen_terminate_search_eq (t : KspTerm) (k n : Nat) (hk : k ≤ 18446744073709551615) :
+    Gen.KspTerminationCriteria_terminate_search t k n = t.terminate k n := by
+  cases t with
+  | exact => simp [Gen.KspTerminationCriteria_terminate_search, KspTerm.terminate, beq_eq_decide]
+  | maxIteration max => simp [Gen.KspTerminationCriteria_terminate_search, KspTerm.terminate, beq_eq_decide]
+  | factor f =>
+    simp only [Gen.KspTerminationCriteria_terminate_search, KspTerm.terminate, beq_eq_decide]
+    congr 1
+    simp only [ge_iff_le, decide_eq_decide, Nat.min_def]
+    split <;> omega
 
 end C13
 end Compass
